@@ -200,8 +200,8 @@ def main() -> int:
         "wall_s": round(time.time() - t0, 2),
         "violations": nviol,
     }
-    os.makedirs(os.path.join(vlib.VERIF, "evidence"), exist_ok=True)
-    with open(os.path.join(vlib.VERIF, "evidence", f"{prop}.json"), "w") as fh:
+    os.makedirs(os.path.join(vlib.OUT, "evidence"), exist_ok=True)
+    with open(os.path.join(vlib.OUT, "evidence", f"{prop}.json"), "w") as fh:
         json.dump(ev, fh, indent=1, default=str)
     print(f"{prop} {a.tier}: obligations {ev['coverage']['discharged']}/{len(obligations)}, "
           f"correspondence cases {evaluations}, violations {nviol}, {ev['wall_s']} s")
